@@ -226,6 +226,24 @@ NOT_YET = {}
 ALL = [f"C{i:02d}" for i in range(1, 19)]
 
 
+EXTRA_NOTES = {
+    "C01": "Also: IBAN.from_bban(K, b, validate_bban=flag) over every text b of the right / wrong length for six countries "
+           "(the alternate constructor validates like IBAN(...)).",
+    "C02": "Digit pairs are tried with a symbolic validate_bban flag and, for four countries, through an unvalidated IBAN object.",
+    "C05": "Also: from_bban over texts of right / wrong length (12 countries), a bounded native sweep of from_bban on raw "
+           "spellings, and the lookup constructors over every registry key.",
+    "C06": "The flag is also threaded through IBAN.from_bban for the 22 countries.",
+    "C07": "Also: one method per bank code in the registry (data obligation), from_bban threading for DE, verdict pins inside the bands.",
+    "C10": "The bounded sweep also covers IBAN.from_bban on raw BBAN text and IBAN.generate with whitespace / lower case inside components.",
+    "C11": "Also: accepted BICs of ANY length tile into 4+2+2(+3), lenient re-assembly (allow_invalid=True) for five countries.",
+    "C13": "Bounded additions: combined (bank+branch) pins for every country with both fields, the same seeded call repeated "
+           "after reading components and after a pinned call, only the overflow error admitted.",
+    "C16": "All ordered class pairs (BBANs of different countries); every pickle protocol on the live classes (bounded).",
+}
+for _k, _v in EXTRA_NOTES.items():
+    CHECKS[_k]["note"] = (CHECKS[_k].get("note", "") + " " + _v).strip()
+
+
 def main():
     checks = []
     for pid in ALL:
